@@ -25,7 +25,7 @@ RULES = [
   (r'lex::XstrLines as .*::next', r'call:str-index', r'', 'Lt((*arg1).pos', 'pos < buf.len() here and pos is 0 or one past a newline found by char_indices: a char boundary; end = start + i from the same char_indices walk'),
   (r'arith::core_word_random|bitstr_ext::random_bits', r'call:unwrap', r'getrandom', '-', 'getrandom failure is an environment fault; the words random / random-bits are excluded as external by the properties (assumption listed in evidence)'),
   (r'bitstr::Bitstr::append_bits_mut', r'Overflow\(Sub\)|call:index:index_mut', r'upper_bound_index\(arg1\.range\.end\),1', 'Gt(Rem(arg1.range.end, 8), 0)', 'end % 8 > 0 implies end >= 1 so upper_bound_index(end) >= 1, and the buffer was just truncated to exactly that many bytes (it held at least that many by ' + I_BITSTR + ')'),
-  (r'bitstr::Bitstr::append_bits_mut', r'call:index:index_mut', r'Div\(phi', 'call Vec::<T, A>::resize_with', 'data was resized to upper_bound_index(end + tail.len()) and pos runs from end over tail.len() bits: pos/8 < new_len'),
+  (r'bitstr::Bitstr::append_bits_mut', r'call:index:index_mut', r'Div\(phi', 'call Vec::<T, A>::resize_with || call Vec::<T, A>::resize', 'data was resized to upper_bound_index(end + tail.len()) and pos runs from end over tail.len() bits: pos/8 < new_len'),
   (r'bitstr::Bitstr::append_bits_mut', r'call:unwrap', r'slice', 'Call:bitstr::Bitstr::is_u8_slice(arg2)=True', 'slice() is Some exactly when is_u8_slice() (same two tests)'),
   (r'bitstr::Bitstr::detach::\{closure#0\}', r'.*', r'', '-', 'closure maps iter8 items (val, n) whose n = min(end-start, 8) is in 1..=8: 8 - n is in 0..=7'),
   (r'bitstr::Bitstr::from_hex_str', r'call:index:index_mut', r'', 'Ne(Vec::<T, A>::len', 'n grows by 4 per digit and a byte is pushed whenever buf.len() == n/8, so in the else branch buf.len() == n/8 + 1'),
